@@ -29,7 +29,7 @@ FAULT_KINDS = ['imu_jitter', 'imu_drop', 'imu_stall', 'meas_drop', 'meas_outage'
                'meas_latency', 'meas_snap', 'meas_cluster', 'meas_dup_cross',
                'meas_early', 'meas_late', 'at_start', 'at_end', 'clock_origin',
                'no_measurements', 'traj_subsample', 'meas_ulp', 'meas_unsorted',
-               'increments_dropout']
+               'increments_dropout', 'imu_zero_fill']
 
 TEMPLATES = ['free', 'free', 'free', 'free', 'free', 'free',
              'last_interval', 'triple_cluster', 'boundary', 'tenhz_default',
@@ -500,6 +500,16 @@ def _generate_once(r, filt, profile):
                          e * np.array([sig[0]] * 3 + [sig[1]] * 3 + [sig[2]] * 2 + [sig[3]])]
     knobs['gyro_bias'] = [_f(x) for x in r.standard_normal(3) * 1e-4]
     knobs['accel_bias'] = [_f(x) for x in r.standard_normal(3) * 1e-2]
+    if 'imu_zero_fill' in enabled and len(imu) > 4:
+        # an IMU whose driver fills lost or saturated samples with zeros: a few increment
+        # rows whose rotation and/or velocity increment is EXACTLY zero between ordinary rows
+        k = int(r.integers(1, 4))
+        rows_ = sorted({int(x) for x in r.integers(0, len(imu) - 1, size=k)})
+        if r.random() < 0.4 and rows_[-1] + 1 < len(imu) - 1:
+            rows_.append(rows_[-1] + 1)                     # two consecutive ones
+        knobs['imu_zero_fill'] = dict(rows=rows_,
+                                      what=['theta', 'dv', 'both'][int(r.integers(3))])
+        trace.append(dict(kind='imu_zero_fill', rows=rows_))
     if filt == 'feedforward':
         k = 1
         if 'traj_subsample' in enabled and len(imu) > 12:
@@ -521,6 +531,18 @@ def _generate_once(r, filt, profile):
             # an earlier call in the same process on the same data with other noise
             # densities (a noise sweep) must not influence this one
             knobs['noise_sweep_before'] = float(10 ** r.uniform(0.5, 1.5))
+        if r.random() < 0.12 and not knobs.get('models_omitted'):
+            # the caller ran the feedback filter on the same data first, with the same
+            # sensor-model and measurement objects
+            knobs['feedback_run_before'] = True
+        if r.random() < 0.15:
+            cand = [i for i, s_ in enumerate(sensors) if len(s_['stamps'])]
+            if cand:
+                i = cand[int(r.integers(len(cand)))]
+                sensors[i]['outlier'] = dict(
+                    row=int(r.integers(len(sensors[i]['stamps']))),
+                    offset=[_f(x) for x in r.uniform(30, 400, 3) * r.choice([-1, 1], 3)])
+                trace.append(dict(kind='meas_outlier', sensor=i))
         if 'increments_dropout' in enabled and knobs['increments_given'] and len(imu) > 8:
             # the increments table handed to the filter has lost a run of rows (IMU log
             # dropout) although the trajectory covers the interval
@@ -557,6 +579,13 @@ def materialise(sc, fence_only=False, fresh_spies=True):
     dt = inc['dt'].values[:, None]
     inc[THETA_COLS] = inc[THETA_COLS].values + scale * np.asarray(kn['gyro_bias']) * dt
     inc[DV_COLS] = inc[DV_COLS].values + scale * np.asarray(kn['accel_bias']) * dt
+    zf = kn.get('imu_zero_fill')
+    if zf:
+        rows_ = [i for i in zf['rows'] if 0 <= i < len(inc)]
+        if zf['what'] in ('theta', 'both'):
+            inc.iloc[rows_, [inc.columns.get_loc(c) for c in THETA_COLS]] = 0.0
+        if zf['what'] in ('dv', 'both'):
+            inc.iloc[rows_, [inc.columns.get_loc(c) for c in DV_COLS]] = 0.0
     init = W.perturb_pva(pva0, scale * np.asarray(kn['init_err'], dtype=float))
     init.name = float(stamps[0])
     meas = []
@@ -564,6 +593,15 @@ def materialise(sc, fence_only=False, fresh_spies=True):
     for s in sc['sensors']:
         data = W.aiding_samples(s['cls'], reference, wd, s['stamps'], s['sd'], s['lever'],
                                 s['noise_seed'], scale=scale)
+        if s.get('outlier') is not None and len(data):
+            # value fault: ONE grossly wrong sample in the log (a multipath fix, a bit flip):
+            # hundreds of sigma off
+            o = s['outlier']
+            j = int(o['row']) % len(data)
+            off = np.asarray(o['offset'], dtype=float) * float(s['sd']) * scale
+            if s['cls'] == 'Position':
+                off = off * np.array([1e-5, 1e-5, 1.0])      # degrees, degrees, metres
+            data.iloc[j, :3] = data.iloc[j, :3].to_numpy() + off
         if s.get('row_order_seed') is not None and len(data) > 1:
             perm = np.random.Generator(np.random.PCG64(int(s['row_order_seed']))) \
                 .permutation(len(data))
@@ -686,6 +724,23 @@ def reset_spies(m):
     for obj in m['measurements']:
         obj.spy_log.clear()
     m['delivery'].clear()
+
+
+def run_feedback_first(sc, m, kw):
+    """The OTHER filter first: a feedback run on the same data with the given (shared)
+    sensor-model and measurement objects.  Not judged; it leaves non-zero estimates in the
+    model objects, which the judged run must reset (documented: estimates are reset at the
+    start of each run)."""
+    kn = sc['knobs']
+    sig = [float(s) * float(kn.get('error_scale', 1.0)) for s in kn['sigmas']]
+    kw = dict(kw)
+    kw.pop('increments', None)
+    try:
+        with InitialSize(kn.get('initial_size', 10000)), KernelShim(), \
+                StepBudget(4 * step_budget_for(sc, m)):
+            filters.run_feedback_filter(m['initial'], *sig, m['increments'], **kw)
+    except Exception:
+        pass
 
 
 def run_prefix(sc, m, kw):
@@ -900,6 +955,8 @@ def probes(sc, m, outcome=None):
         hit['measurement_table_not_sorted_by_time'] = 1
     if sc['knobs'].get('increments_dropout'):
         hit['interval_without_increment_rows'] = 1
+    if sc['knobs'].get('imu_zero_fill'):
+        hit['increment_rows_exactly_zero'] = 1
     if sc['knobs'].get('nominal') == 'constant_attitude':
         hit['nominal_attitude_identical_in_consecutive_rows'] = 1
     if abs(a) >= 1e5:
